@@ -141,6 +141,9 @@ func runC08(c *Ctx) {
 				}
 			})
 		}
+		if bad == "" {
+			bad = closureWritesParam(p, fn)
+		}
 		if bad != "" {
 			ob.Violate("%s", bad)
 		} else {
@@ -225,4 +228,97 @@ func rangesWhole(idx ssa.Value, x ssa.Value) bool {
 		}
 	}
 	return false
+}
+
+
+// closureWritesParam: a function literal inside fn (a deferred scrubber, a helper closure) stores through a
+// reference-like parameter of fn that it captured.
+func closureWritesParam(p *Prog, fn *ssa.Function) string {
+	bad := ""
+	var visit func(af *ssa.Function, depth int)
+	visit = func(af *ssa.Function, depth int) {
+		if depth > 3 {
+			return
+		}
+		// how the closure was made: free variable index -> binding in the parent
+		var mk *ssa.MakeClosure
+		allInstrs(af.Parent(), func(in ssa.Instruction) {
+			if m, ok := in.(*ssa.MakeClosure); ok && m.Fn == ssa.Value(af) {
+				mk = m
+			}
+		})
+		capturedParam := func(fv *ssa.FreeVar) *ssa.Parameter {
+			if mk == nil {
+				return nil
+			}
+			for i, f := range af.FreeVars {
+				if f != fv || i >= len(mk.Bindings) {
+					continue
+				}
+				switch b := mk.Bindings[i].(type) {
+				case *ssa.Parameter:
+					return b
+				case *ssa.Alloc:
+					for _, r := range *b.Referrers() {
+						if st, ok := r.(*ssa.Store); ok && st.Addr == ssa.Value(b) {
+							if q, ok := st.Val.(*ssa.Parameter); ok && refLike(q.Type()) {
+								return q
+							}
+						}
+					}
+				}
+			}
+			return nil
+		}
+		root := func(v ssa.Value) ssa.Value {
+			for i := 0; i < 12; i++ {
+				switch x := v.(type) {
+				case *ssa.IndexAddr:
+					v = x.X
+				case *ssa.FieldAddr:
+					v = x.X
+				case *ssa.Slice:
+					v = x.X
+				case *ssa.UnOp:
+					if fv, ok := x.X.(*ssa.FreeVar); ok {
+						return fv
+					}
+					return v
+				default:
+					return v
+				}
+			}
+			return v
+		}
+		allInstrs(af, func(in ssa.Instruction) {
+			var dst ssa.Value
+			switch x := in.(type) {
+			case *ssa.Store:
+				if _, isAlloc := x.Addr.(*ssa.Alloc); !isAlloc {
+					if _, isFV := x.Addr.(*ssa.FreeVar); !isFV { // re-binding the captured variable itself writes no byte
+						dst = x.Addr
+					}
+				}
+			case *ssa.Call:
+				if p.CalleeID(x.Common()) == "builtin:copy" {
+					dst = x.Common().Args[0]
+				}
+			}
+			if dst == nil {
+				return
+			}
+			if fv, ok := root(dst).(*ssa.FreeVar); ok {
+				if q := capturedParam(fv); q != nil && q.Parent() == fn {
+					bad = fmt.Sprintf("parameter %s is overwritten inside a function literal at %s", q.Name(), p.InstrPos(in))
+				}
+			}
+		})
+		for _, g := range af.AnonFuncs {
+			visit(g, depth+1)
+		}
+	}
+	for _, af := range fn.AnonFuncs {
+		visit(af, 0)
+	}
+	return bad
 }
